@@ -2,7 +2,7 @@
 mount-time validation is not bypassed (MT5), cluster-range bounds agree (FT11)."""
 from .framework import rule
 from .ev import all_guards, guarded, g_call, g_cmp, g_try_ok, try_inner
-from .mir import tstr, callee_of, path_matches, strip_refs, subterms, tmatch, find_sub, strip_generics
+from .mir import tstr, callee_of, path_matches, strip_refs, subterms, tmatch, find_sub, strip_generics, flat_place, rvalue_places
 from .fsmodel import VM, VMD, FATVOL, table_of_term, call_matches, ok_returns, err_returns, medium_effects, state_effects, FAT_MUTATORS, CACHE_MUTATORS
 from .dataflow import var_def_terms
 from .rules_guard import has_sub, last_field
@@ -179,7 +179,14 @@ def ft11(F, R):
             continue
         seen = set()
         from .ev import tested_comparisons
-        for (b, i, g, op, a, bb) in [(b, i, g, op, a, bb) for (b, i, g) in all_guards(fn) for (op, a, bb) in tested_comparisons(g)]:
+        tests = [(b, op, a, bb) for (b, i, g) in all_guards(fn) for (op, a, bb) in tested_comparisons(g)]
+        # comparisons computed as values (`lo <= c && c < end` in a predicate, kept in a flag): the same obligation
+        for b, i, s_ in fn.stmts():
+            if s_["k"] == "Assign" and s_["rv"]["k"] == "BinaryOp" and s_["rv"]["op"] in ("Lt", "Le", "Gt", "Ge"):
+                tv = fn.term_of_rvalue(s_["rv"], b)
+                if tv[0] == "bin":
+                    tests.append((b, tv[1], tv[2], tv[3]))
+        for (b, op, a, bb) in tests:
             if op not in ("Lt", "Le", "Gt", "Ge"):
                 continue
             if "cluster_count" not in tstr(a) + tstr(bb):
@@ -236,11 +243,46 @@ def fa1(F, R):
     R.require(n >= 8, None, "sites", "expected >= 8 typed sites, found %d" % n)
 
 
+def _eval_newtype_fn(F, fn, vals):
+    """Run a small function over the integer newtypes on concrete values.  vals: one int per parameter (a parameter of
+    reference type gets a cell holding the value).  -> (result as int | None, values of the reference parameters afterwards)"""
+    from .absint import Interp, State
+    from .absval import const, agg as _agg, int_const, is_int, is_agg, is_ptr
+    I = Interp(F, mode="bv", max_paths=64)
+    st = State()
+    args, cells = [], []
+    for k, v in enumerate(vals):
+        ty = fn.locals[k + 1]["ty"]
+        base = ty.replace("&mut ", "").replace("&", "").strip()
+        width = {"u8": 8, "u16": 16, "u32": 32, "u64": 64, "usize": 64}.get(base)
+        val = const(v, width) if width else _agg("struct", base, 0, [const(v, 32)])
+        if ty.strip().startswith("&"):
+            c = I.heap_alloc(st, val)
+            cells.append(c)
+            args.append(c)
+        else:
+            args.append(val)
+    outs = I.run(fn, args, st, 0)
+    if len(outs) != 1:
+        return None, None
+
+    def unwrap(x):
+        while is_agg(x) and len(x[4]) == 1:
+            x = x[4][0]
+        return int_const(x) if is_int(x) else None
+    rv, s2 = outs[0]
+    return unwrap(rv), [unwrap(I.read_loc(s2, (c[1], c[2], c[3], None))) for c in cells]
+
+
 @rule("NT1", ["C01", "C04", "C06"], floor=10,
       doc="the integer newtypes are plain integers: every Add/Sub/AddAssign/SubAssign impl of BlockIdx, BlockCount and ClusterId is exactly field arithmetic (Self(self.0 op rhs.0) resp. self.0 = self.0 op rhs.0), which is what lets the formula rules (CB1, SK5, LS4, BM1) treat `a + b` on these types as integer addition; BlockCount::offset_bytes(n) = self + n/512 and BlockIdx::into_bytes = self*512")
 def nt1(F, R):
-    from .poly import peq, ADD, SUB
+    """Decided by evaluation on sample values plus 'no data-dependent branch' (a branch-free integer function that agrees
+    with a + b / a - b / a + n/512 / a*512 on these samples is that function: its result is a fixed polynomial-with-division
+    of its arguments) - however the impl is written (directly, through the *Assign impl, through a helper)."""
+    from .absint import Undecided
     n = 0
+    samples = [(0, 0), (5, 3), (1000, 7), (0x40000000, 0x1234), (0xFFFF0000, 0xFFFF)]
     for fn in F.fns:
         p = fn.npath
         if not (p.startswith("<") and " as core::ops::" in p and any(x in p.split(" as ")[0] for x in ("BlockIdx", "BlockCount", "ClusterId"))):
@@ -249,24 +291,38 @@ def nt1(F, R):
         if op not in ("add", "sub", "add_assign", "sub_assign"):
             continue
         n += 1
-        a = ("arg", 1, "self")
-        b = ("arg", 2, "rhs")
-        want = ADD(a, b) if op.startswith("add") else SUB(a, b)
-        if op in ("add", "sub"):
-            rets = [fn.term_of_rvalue(d[3], d[1]) if d[0] == "assign" else fn.call_term(d[2], d[1]) for d in fn.defs().get(0, [])]
-            ok = len(rets) == 1 and rets[0][0] == "agg" and peq(rets[0], want)
-        else:
-            st = [fn.term_of_rvalue(s["rv"], bb) for bb, i, s in fn.stmts() if s["k"] == "Assign" and s["p"]["proj"] and s["p"]["l"] == 1]
-            ok = len(st) == 1 and peq(st[0], ADD(("place", a, ("*",)), b) if op.startswith("add") else SUB(("place", a, ("*",)), b))
-        R.require(ok, fn, "plain:" + p.split(" as ")[0].split("::")[-1] + "::" + op, "%s is not plain field arithmetic" % p, fn.loc(0))
+        # rhs may be a plain integer (ClusterId += u32) or another newtype
+        bad = None
+        branches = [b for b in fn.live_blocks() if fn.term(b)["k"] == "SwitchInt"]
+        try:
+            for (a, b) in samples:
+                if op.startswith("sub") and b > a:
+                    a, b = b, a
+                want = a + b if op.startswith("add") else a - b
+                rv, cells = _eval_newtype_fn(F, fn, [a, b])
+                got = cells[0] if op.endswith("_assign") else rv
+                if got != want:
+                    bad = "for (%d, %d) it gives %s, expected %d" % (a, b, got, want)
+                    break
+        except Undecided as e:
+            bad = "cannot evaluate: %s" % e
+        R.require(bad is None and not branches, fn, "plain:" + p.split(" as ")[0].split("::")[-1] + "::" + op, "%s is not plain field arithmetic: %s" % (p, bad or "it branches on its operands"), fn.loc(0))
     R.require(n >= 10, None, "impls", "expected >= 10 arithmetic impls on the newtypes, found %d" % n)
-    from .poly import DIV, MUL, C
-    fn = F.fn("blockdevice::BlockCount::offset_bytes")
-    rets = [fn.term_of_rvalue(d[3], d[1]) if d[0] == "assign" else fn.call_term(d[2], d[1]) for d in fn.defs().get(0, [])]
-    R.require(len(rets) == 1 and peq(rets[0], ADD(("arg", 1, "self"), DIV(("arg", 2, "offset"), C(512)))), fn, "offset_bytes", "BlockCount::offset_bytes(self, n) must be self + n / 512 (the FAT sector holding byte offset n), got %s" % [tstr(r) for r in rets], fn.loc(0))
-    fn = F.fn("blockdevice::BlockIdx::into_bytes")
-    rets = [fn.term_of_rvalue(d[3], d[1]) if d[0] == "assign" else fn.call_term(d[2], d[1]) for d in fn.defs().get(0, [])]
-    R.require(len(rets) == 1 and peq(rets[0], MUL(("arg", 1, "self"), C(512))), fn, "into_bytes", "BlockIdx::into_bytes must be self * 512, got %s" % [tstr(r) for r in rets], fn.loc(0))
+    for name, f_, pts in (("blockdevice::BlockCount::offset_bytes", lambda a, b: a + b // 512, [(0, 0), (3, 511), (3, 512), (10, 1025), (7, 0xFFFFFFFF)]),
+                          ("blockdevice::BlockIdx::into_bytes", lambda a: a * 512, [(0,), (1,), (12345,), (0xFFFFFFFF,)])):
+        fn = F.fn(name)
+        bad = None
+        try:
+            for pt in pts:
+                rv, _c = _eval_newtype_fn(F, fn, list(pt))
+                if rv != f_(*pt):
+                    bad = "for %s it gives %s, expected %d" % (pt, rv, f_(*pt))
+                    break
+        except Undecided as e:
+            bad = "cannot evaluate: %s" % e
+        branches = [b for b in fn.live_blocks() if fn.term(b)["k"] == "SwitchInt"]
+        short = name.split("::")[-1]
+        R.require(bad is None and not branches, fn, short, "%s must be %s: %s" % (name, "self + n / 512 (the FAT sector holding byte offset n)" if short == "offset_bytes" else "self * 512", bad or "it branches on its operands"), fn.loc(0))
 
 
 WRAPPER_TABLE = {
@@ -684,7 +740,7 @@ def ft12(F, R):
         if g.kind == "variant" and g.variant == "Some" and g.term[0] == "place" and last_field(g.term) == "second_fat_start" and strip_refs(g.term[1])[:2] == ("arg", 1):
             n += 1
             tgt = fn.succ(gb)[gi][0]
-            free = fn.reach([tgt], cut_blocks=[d[1] for d in somes])
+            free = fn.reach([tgt], cut_blocks=[d[1] for d in somes + maps])
             R.require(not any(b in free for b in wbd + wb), fn, "some-implies-dup", "a path on which second_fat_start is Some reaches the write-back without recording the duplicate location", fn.loc(gb))
     n += len(maps)
     # one test / map per FAT type's path is what is needed: shared code before the per-type arms serves both
@@ -1369,6 +1425,7 @@ def fc1(F, R):
         # the match on the lookup's answer itself (later switches on the same value are drop-flag bookkeeping behind it)
         first = [gb for (gb, gi, g) in on_call if not any(gb2 != gb and fn.dominates(gb2, gb) for (gb2, _i, _g) in on_call)]
         ok_edges = [(gb, gi) for (gb, gi, g) in on_call if g.kind == "variant" and g.variant == "Ok" and gb in first]
+        cur = flat_place(cur)[0]            # the walk's variable: the cursor itself, or the Option / struct local it is taken from
         R.require(bool(ok_edges) and cur[0] == "var", fn, name + ":ok-arm", "the Ok(n) answer of next_cluster is not matched / the cursor is not a local", fn.loc(nb))
         for (gb, gi) in ok_edges:
             start = fn.succ(gb)[gi][0]
@@ -1403,23 +1460,57 @@ def fc1(F, R):
         cur = strip_refs(fn.term_of_operand(ncs[0][1]["args"][2], ncs[0][0]))
         end = ADD(("place", ("arg", 1, "self"), ("*", "cluster_count")), C(2))
 
+        curp = flat_place(cur)
+        cur = curp[0]
+        is_num = lambda a: flat_place(a) == (curp[0], curp[1] + ("0",))         # the cursor's cluster number
+
         def in_range_edge(g):
             for (op, a, z, truth) in cmp_forms(g):
-                if op == "Lt" and truth and strip_refs(a)[0] == "place" and strip_refs(strip_refs(a)[1]) == cur and peq(z, end):
+                if op == "Lt" and truth and is_num(a) and peq(z, end):
                     return True
             if g.kind == "bool" and g.truth is True and g.term[0] == "call" and (g.term[1] or "").endswith("::contains"):
                 r, x = strip_refs(g.term[2][0]), strip_refs(g.term[2][1])
-                if r[0] == "agg" and len(r[3]) == 2 and peq(r[3][1], end) and x[0] == "place" and strip_refs(x[1]) == cur:
+                if r[0] == "agg" and len(r[3]) == 2 and peq(r[3][1], end) and is_num(x):
                     return True
             return False
-        edges = [(gb, gi) for (gb, gi, g) in all_guards(fn) if in_range_edge(g)]
+        from .ev import implying_edges
+        edges = list(implying_edges(fn, in_range_edge))
         okr = bool(edges) and cur[0] == "var"
         if okr:
-            for d in fn.defs().get(cur[1], []):
-                if d[0] != "assign":
-                    continue
-                rs = fn.reach([d[1]], cut_edges=edges)
-                if any(b in rs for b, t in ups):
+            # the cluster number handed to update_fat has been compared since it was (last) defined: either the local that
+            # carries it is the walk's variable (or a filtered view of it) and every path from its definitions crosses a
+            # range edge, or all the locals it was copied from are so (`let Some(current) = pending.filter(..)`, after which
+            # pending may move on while `current` is still the checked number)
+            def about_cursor(l):
+                t_ = fn._local_term(l, 0)
+                for _k in range(4):
+                    r_ = flat_place(t_)[0]
+                    if r_ == cur:
+                        return True
+                    if r_[0] == "call" and r_[1] and r_[1].endswith(("Option::filter", "Option::inspect", "Option::take", "Option::copied", "Clone::clone")) and r_[2]:
+                        t_ = r_[2][0]
+                        continue
+                    return False
+                return False
+
+            def checked(l, at, seen):
+                if l in seen:
+                    return False
+                defs = fn.defs().get(l, [])
+                if not defs:
+                    return False
+                if about_cursor(l) and all(at not in fn.reach([d[1]], cut_edges=edges) for d in defs):
+                    return True
+                for d in defs:
+                    if d[0] != "assign":
+                        return False
+                    for p_ in rvalue_places(d[3]):
+                        if not checked(p_["l"], d[1], seen | {l}):
+                            return False
+                return True
+            for ub, ut in ups:
+                op_ = ut["args"][2]
+                if not (op_.get("p") and checked(op_["p"]["l"], ub, frozenset())):
                     okr = False
         R.require(okr, fn, "free_cluster_chain:range-per-link", "free_cluster_chain frees a cluster that was not compared with cluster_count + 2 since the cursor was set to it (only the first cluster of the chain is validated): a damaged link makes update_fat write outside the FAT", fn.loc(ups[0][0]))
 
